@@ -270,7 +270,12 @@ def _s4_optional_omission(program, model, res):
                 guards = [b for b, _l in g.lexical_guards(nd) if f"self.{field}" in unparse(b.cond)]
                 found = True
                 n += 1
-                if guards and all(isinstance(b.cond, ast.Compare) and isinstance(b.cond.ops[0], (ast.IsNot, ast.Is)) for b in guards):
+                def _none_test(c):
+                    while isinstance(c, ast.UnaryOp) and isinstance(c.op, ast.Not):
+                        c = c.operand
+                    return isinstance(c, ast.Compare) and len(c.ops) == 1 and isinstance(c.ops[0], (ast.IsNot, ast.Is)) \
+                        and isinstance(c.comparators[0], ast.Constant) and c.comparators[0].value is None
+                if guards and all(_none_test(b.cond) for b in guards):
                     res.ok("C12-S1", f"{kname}: `{field}` is printed whenever it is not None ({why})")
                 elif not guards:
                     res.ok("C12-S1", f"{kname}: `{field}` is always printed")
@@ -295,7 +300,8 @@ def _s4_optional_omission(program, model, res):
                 else:
                     res.ok("C12-S1", f"{kname}: `{field}` printed through {c.func.id}() without a truthiness filter")
         if not found:
-            raise AnalysisError(f"{kname}.to_python_src_: the print of `{field}` was not found")
+            # not printed at all / under another keyword: that is reported by the slot rule above
+            res.abstain("C12-S1", f"{kname}: omission condition of `{field}`", "the field is not printed under its own keyword")
     return n
 
 
